@@ -98,7 +98,7 @@ def static_sites(facts, visited):
 
 
 def run(ctx, chk):
-    cfgs = ctx.configs(quick=("std", "none"), thorough=("std", "alloc", "none"))
+    cfgs = ctx.configs()
     ctx.prefetch(cfgs)
     total_sites = 0
     for cfg in cfgs:
